@@ -738,6 +738,13 @@ static Plan gen_fscrash(Rng& r, int tier, std::string const&)
         // not depend on the schedule)
         p.P = 2 + r.below(3);
         p.rorder = 0;
+        if (p.variant != 2 && r.chance(0.5))
+        {
+            // two integrations side by side in one process (aux[2] = 1): the world is split into two
+            // halves, the second half integrates with another generator seed and writes a file of its own
+            p.P = 2 * (1 + r.below(2));
+            p.aux.push_back(1);
+        }
     }
     if (p.variant == 2)
     {
@@ -842,6 +849,26 @@ struct CrashCheck : CrashVisitor
     std::size_t last_k = 0;
 };
 
+// accepts any complete text of the run (old-or-new cannot be attributed); still catches incomplete files
+struct AnyCheck : CrashCheck
+{
+    void state(std::size_t event, u64 prefix, std::map<std::string, std::string> const& files,
+        std::string const&) override
+    {
+        ++states;
+        auto it = files.find(path);
+        if (it == files.end()) return;
+        bool complete = false;
+        for (std::size_t j = 1; j < texts->size(); ++j) complete = complete || (it->second == (*texts)[j]);
+        if (!complete && bad.empty())
+        {
+            bad = it->second.empty() ? std::string("<empty file>") : it->second;
+            bad_event = event;
+            bad_prefix = prefix;
+        }
+    }
+};
+
 }
 
 static void exec_fscrash(Plan const& p, Report& rep)
@@ -852,6 +879,80 @@ static void exec_fscrash(Plan const& p, Report& rep)
     base_ctl.filename = CHK;
     base_ctl.fs_faults.clear();
     base_ctl.kill_armed = false;
+
+    if (p.aux.size() >= 3 && p.aux[2] == 1 && p.P >= 2 && p.P % 2 == 0 && p.variant != 2)
+    {
+        u64 const a = p.P / 2;
+        Plan q1 = p;
+        q1.eseed = p.eseed + 1;
+        std::vector<std::string> texts_of[2] = {std::vector<std::string>(1), std::vector<std::string>(1)};
+        std::string final_of[2];
+        for (int g = 0; g != 2; ++g)
+        {
+            Plan const& pg = g ? q1 : p;
+            Report scratch;
+            Session s(pg, scratch);
+            s.check = false;
+            s.fresh();
+            fs().reset();
+            RunCtl c = base_ctl;
+            c.P = a;
+            c.log_text = true;
+            RunOut const o = s.run(pg.calls, c);
+            if (o.threw || o.killed || o.hang || o.results != pg.calls.size()) return;
+            for (auto const& cb : o.ranks[0].cbs) texts_of[g].push_back(cb.text);
+            final_of[g] = s.w->text();
+        }
+
+        Session s(p, rep);
+        s.check = false;
+        s.fresh();
+        fs().reset();
+        RunCtl c = base_ctl;
+        c.P = p.P;
+        c.comm_split = a;
+        c.two_jobs = true;
+        c.fs_trace = true;
+        c.log_text = false;
+        c.fs_yield_p = 0.4;
+        RunOut const o = s.run(p.calls, c);
+        if (o.threw)
+        {
+            rep.fail("C18", "restarted-run-throws", key, o.what);
+            return;
+        }
+        if (o.killed || o.hang || o.rank_texts.size() != p.P) return;
+        std::vector<FsEvent> const trace = fs().trace;
+        rep.probes["two-integrations-in-one-process"]++;
+
+        if (o.rank_texts[0] != final_of[0] || o.rank_texts[a] != final_of[1])
+        {
+            rep.fail("C18", "faulty-writes-change-result", "two integrations in one process",
+                "one of two integrations running side by side returns another checkpoint than it does alone");
+            return;
+        }
+
+        for (int g = 0; g != 2; ++g)
+        {
+            AnyCheck any;
+            any.path = g ? std::string(CHK) + ".g1" : std::string(CHK);
+            any.texts = &texts_of[g];
+            any.thorough = p.aux.size() > 1 && p.aux[1] != 0;
+            any.rng = Rng(p.aux[0] ^ 77);
+            enumerate_crash_states({}, trace, any);
+            rep.faults["kill-at-fs-event(enumerated)"] += any.states;
+            rep.probes["crash-states"] += any.states;
+            rep.hash.u64(any.states);
+            if (!any.bad.empty())
+            {
+                rep.fail("C18", "incomplete-file", "two integrations in one process", fmt(
+                    "killed at file system event %zu: the checkpoint file of integration %d holds %zu bytes that are no complete checkpoint of that integration",
+                    any.bad_event, g, any.bad == "<empty file>" ? std::size_t(0) : any.bad.size()));
+                return;
+            }
+        }
+        return;
+    }
 
     // reference: texts after every iteration, from the uninterrupted run (user visible callback texts)
     std::vector<std::string> texts(1);
@@ -952,24 +1053,7 @@ static void exec_fscrash(Plan const& p, Report& rep)
         {
             // fall back: accept any complete text (old-or-new cannot be attributed); still catches
             // incomplete files
-            struct Any : CrashCheck
-            {
-                void state(std::size_t event, u64 prefix, std::map<std::string, std::string> const& files,
-                    std::string const&) override
-                {
-                    ++states;
-                    auto it = files.find(path);
-                    if (it == files.end()) return;
-                    bool complete = false;
-                    for (std::size_t j = 1; j < texts->size(); ++j) complete = complete || (it->second == (*texts)[j]);
-                    if (!complete && bad.empty())
-                    {
-                        bad = it->second.empty() ? std::string("<empty file>") : it->second;
-                        bad_event = event;
-                        bad_prefix = prefix;
-                    }
-                }
-            } any;
+            AnyCheck any;
             any.path = CHK;
             any.texts = &texts;
             any.rng = Rng(p.aux[0] ^ 77);
